@@ -45,7 +45,7 @@ def describe(tier):
         "rule": "for every data array per dimension (rows N, E categories; one-axis dimensions and dimensions with one extra axis (N,2), (N,3)) and every call of C03's sub-space (aggregate x policy x weights x fact): the base cube uses "
         "harness-built dimensions with common 0 and explicit shape E+2; then for EVERY combination (v_1..v_D) in (0..E+1)^D each dimension is replaced by a rebuilt "
         "copy re-encoded with the library's shift_common(v_d) (v = E, E+1 never occur in the data) and the result must equal the base (missing cells exactly, "
-        "values within 1e-9 x grand total); then every dimension is re-normalised with shift_common() and compared again. shift_common must leave the dense "
+        "values within 1e-9 x grand total); then every dimension is re-normalised with shift_common() and compared again; and ONE set of index objects is evaluated, re-expressed in place through the whole list of common-value combinations and evaluated after each step (anything an index memoises must follow its common value). shift_common must leave the dense "
         "content unchanged. evaluations = re-encoded cube evaluations. Non-trivial: some dimension has >=2 distinct values and the combination differs from "
         "the base encoding. Distinct = distinct (data, call, combination).",
         "bounds": {"sets": SETS[tier]},
@@ -161,6 +161,23 @@ def check_data(datas, E, N, cfg, acc, only_call=None, only_combo=None):
                 if msg:
                     acc.violation("ccube:%s:%s:differs" % (agg, tag), case, msg)
                 acc.count("reencoded_evals")
+        # the same index OBJECTS evaluated, re-expressed in place, evaluated again ... (anything an index memoises must follow its common value)
+        if True:
+            live = [M.build_index(d, 0) for d in denses]
+            try:
+                ev(live)
+                for combo in enc:
+                    for ix, v in zip(live, combo):
+                        ix.shift_common(v)
+                    case = dict(case0, combo=list(combo), stage="in-place", commons=[ix.common for ix in live])
+                    msg = same(ev(live), base, grand)
+                    if msg:
+                        acc.violation("ccube:%s:in-place:differs" % agg, case, msg)
+                        break
+                    acc.count("in_place_evals")
+            except Exception as e:  # noqa
+                acc.violation("ccube:%s:in-place:raised" % agg, dict(case0, stage="in-place"), repr(e))
+        for combo in enc:
             acc.case((tuple(d.tobytes() for d in denses), tuple(d.shape for d in denses), agg, ignore, ws, fs, combo), nontrivial=nt_cube and any(combo), outcome=(agg, int(base[1].sum()) > 0), sample=lambda: dict(case0, combo=list(combo)))
 
 
@@ -179,7 +196,7 @@ def replay(case, site=None):
     cfg = dict(wl=0, Ks=[0], fl=1, forms=["nan"], vals=["pow2"], wforms=True)
     if "agg" in case:
         call = (case["agg"], case["ignore"], c03._tupleize(case["weights"]), c03._tupleize(case["fact"]) if case["fact"] is not None else None)
-        check_data(datas, case["E"], len(datas[0]), cfg, acc, only_call=call, only_combo=case.get("combo"))
+        check_data(datas, case["E"], len(datas[0]), cfg, acc, only_call=call, only_combo=None if case.get("stage") == "in-place" else case.get("combo"))
     else:
         combo = [0] * len(datas)
         combo[case["dim"]] = case["to"]
